@@ -53,10 +53,23 @@ Fixpoint insert_desc (x : edit) (l : list edit) : list edit :=
   end.
 Definition sort_desc (l : list edit) : list edit := fold_right insert_desc [] l.
 
+(* rewriter.py:apply_changes, is_inside / outermost (after the pending fix
+   C17-rewriter-nested-modified-nodes): a modified node whose extent lies inside the extent
+   of another modified node is re-printed with the outer one and is not spliced itself. *)
+Definition pos_le (l1 c1 l2 c2 : nat) : bool := (l1 <? l2)%nat || ((l1 =? l2)%nat && (c1 <=? c2)%nat).
+Definition same_extent (a b : edit) : bool :=
+  (e_sl a =? e_sl b)%nat && (e_sc a =? e_sc b)%nat && (e_el a =? e_el b)%nat && (e_ec a =? e_ec b)%nat.
+Definition is_inside (inner outer : edit) : bool :=
+  negb (same_extent inner outer) &&
+  pos_le (e_sl outer) (e_sc outer) (e_sl inner) (e_sc inner) &&
+  pos_le (e_el inner) (e_ec inner) (e_el outer) (e_ec outer).
+Definition outermost (es : list edit) : list edit :=
+  filter (fun x => negb (existsb (fun y => is_inside x y) es)) es.
+
 (* offsets are computed once from the unmodified file; items are applied last-first *)
 Definition apply_edits (text : str) (es : list edit) : str :=
   let offs := line_offsets text in
-  fold_left (fun raw e => apply_off raw (edit_off offs e)) (sort_desc es) text.
+  fold_left (fun raw e => apply_off raw (edit_off offs e)) (sort_desc (outermost es)) text.
 
 (* The meaning: with extents given as offsets, ascending and pairwise disjoint, everything
    outside the extents is kept in order and each extent is replaced by its new text.
